@@ -515,7 +515,8 @@ class World:
                 cfg[".".join(list(seq(ev["p"])) + [ev["k"], "".join(seq(ev["dk"]))])] = value_to_py(cinco, ev["v"], None, self.root)
             elif op == "Ctor":
                 kw = {k: value_to_py(cinco, v, None, self.root) for k, v in seq(ev["kw"])}
-                new = self.schema(**kw)
+                # Schema.__call__ and the Config constructor, in turn
+                new = self.schema(**kw) if len(kw) % 2 == 0 else cinco.Config(self.schema, **kw)
                 self.keep.append(self.cfgs[n])
                 self.cfgs[n] = new
             elif op == "Load":
